@@ -837,6 +837,39 @@ class Flow:
                 return None
         return t
 
+    def alternatives(self, l, bb, idx):
+        """[(def block or None, tree)] for each definition of local l reaching (bb, idx)."""
+        out = []
+        for d in self.reaching_defs(l, bb, idx):
+            if d == ("entry",):
+                out.append((None, ("arg", l) if 1 <= l <= self.fn.argc else ("local", l)))
+                continue
+            b, j = d
+            if j == "t":
+                out.append((b, self.call_tree(b, self.fn.blocks[b]["t"])))
+            else:
+                st = self.fn.blocks[b]["s"][j]
+                out.append((b, self.rvalue_tree(st[2], b, j) if st[0] == "=" else ("unk", st[0])))
+        return out
+
+    def switch_alternatives(self, bb):
+        """Alternatives of the switch discriminant of block bb when it is a plain local (looking
+        through one level of copies)."""
+        t = self.fn.blocks[bb]["t"]
+        op = t["d"]
+        if op[0] not in ("c", "m") or len(op[1]) != 1:
+            return []
+        alts = self.alternatives(op[1][0], bb, "t")
+        # look through `_a = copy _b`
+        if len(alts) == 1 and alts[0][0] is not None:
+            b = alts[0][0]
+            for (bb2, j, w) in self.cfg.defs.get(op[1][0], []):
+                if bb2 == b and j != "t":
+                    st = self.fn.blocks[b]["s"][j]
+                    if st[0] == "=" and st[2][0] == "use" and st[2][1][0] in ("c", "m") and len(st[2][1][1]) == 1:
+                        return self.alternatives(st[2][1][1][0], b, j)
+        return alts
+
     # ---- convenience
     def arg_tree(self, cs, i):
         return self.operand_tree(cs.args[i], cs.bb, "t")
@@ -1130,6 +1163,31 @@ def assumed_sig(fn, bb):
     for a, lab in sorted(cfg.assertlike.items()):
         if a in cfg.live and cfg.dominates(a, bb) and a != bb:
             out.append(decode_pred(fn, a, lab))
+    return out
+
+
+def dom_guards(fn, bb):
+    """Branch edges that every entry->bb path must take: Pred list. Unlike the control-dependence
+    closure this is stable inside loops (no back-edge conditions)."""
+    cfg = fn.cfg
+    out = []
+    for a in sorted(cfg.live):
+        succ = cfg.succ[a]
+        if len({s for s, _ in succ}) < 2:
+            continue
+        for (s, lab) in succ:
+            if s == bb or cfg.dominates(s, bb):
+                preds = {p for p, _ in cfg.pred[s]}
+                # the edge a->s is the only way into s, or all other ways into s come from blocks dominated by s (loop back edges)
+                if all(p == a or cfg.dominates(s, p) for p in preds):
+                    # several labels may lead a->s (match arms sharing a target): merge
+                    labs = [l for (s2, l) in succ if s2 == s]
+                    if len(labs) == 1:
+                        out.append(decode_pred(fn, a, lab))
+                    else:
+                        if lab == labs[0]:
+                            ps = [decode_pred(fn, a, l) for l in labs]
+                            out.append(Pred(ps[0].tree, lab, a, ("in", tuple(sorted(str(p.val) for p in ps)))))
     return out
 
 
